@@ -2,6 +2,7 @@
 From Coq Require Import String ZArith List Bool.
 From FcpV Require Import Schema.Types Layout.Packed Verifier.Checks Codegen.Pipeline Codegen.PipelineProofs.
 From FcpV Require Py.BufferLib Verifier.DriverLib Verifier.DriverProofs gen.PyVerifier.
+From FcpV Require Codegen.CodegenLib Codegen.CodegenProofs gen.PyCodegen.
 Import ListNotations.
 
 (* whichever check rejects (any category, any position, general or plug-in:
@@ -50,6 +51,29 @@ Theorem source_gate_verdict_is_the_model :
     PyVerifier.py_verify checks t = DriverProofs.vres_of (verify pl t).
 Proof. exact DriverProofs.driver_is_model. Qed.
 Print Assumptions source_gate_verdict_is_the_model.
+
+(* ---- src/fcp/codegen.py itself: GeneratorManager.generate, CodeGenerator.gen, handle_result and _handle_file are translated from the
+   source on every run (gen/PyCodegen.v) into a program over the output directory; that program IS manager_generate, so every theorem
+   above is about the source ---- *)
+Theorem source_manager_generate_is_the_model :
+  forall pl t out fs, PyCodegen.py_manager_generate pl t out fs = manager_generate pl t out fs.
+Proof. exact CodegenProofs.manager_generate_is_model. Qed.
+Print Assumptions source_manager_generate_is_the_model.
+
+(* the gate, about the translated source: rejected or raising verification leaves the directory as it was and hands the error on; an
+   accepted schema writes exactly the returned files; a raising plug-in writes nothing *)
+Theorem source_generation_is_gated :
+  forall pl t out fs,
+    match verify pl t with
+    | VErr c => PyCodegen.py_manager_generate pl t out fs = (Ret (RErr c), fs)
+    | VRaise => PyCodegen.py_manager_generate pl t out fs = (Exn, fs)
+    | VOk => match out with
+             | PFiles files => PyCodegen.py_manager_generate pl t out fs = (Ret (ROk tt), fs_write_all files (preclean pl fs))
+             | PRaise => PyCodegen.py_manager_generate pl t out fs = (Exn, fs)
+             end
+    end.
+Proof. exact CodegenProofs.source_gate. Qed.
+Print Assumptions source_generation_is_gated.
 
 Example c10_nonvacuous :
   let t := {| t_structs := [ {| sname := "S"; sfields := [] |} ]; t_enums := []; t_impls := [];
